@@ -111,7 +111,7 @@ PROPS = {
         'bounds hold while the policy is in force: FORWARD-TSN negotiated (prEnabled), stream in the association table, no openS/setRel on it during the run; MTU < 2^30',
         'nSent is the transmission count (stamped by the model on every chunk it puts in a packet; compared with the implementation per chunk per gather)',
         'known finding D14 (fragmented messages: bounds hold for the last fragment only; witness decided and replayed); D21 (abandoned chunk retransmitted through a stale mark) is fixed in /repo (6ddfdda), its witnesses are regression guards']},
-    'C07': {'jobs': [E2E_PR, ASND, ARCV], 'rule': E2E_RULE},
+    'C07': {'jobs': [E2E_PR, ASND, ARCV, dict(REASM, corpus_glob='reasm_*.ops')], 'rule': E2E_RULE},
     'C08': {'jobs': [SDD, dict(E2E_SD, corpus_glob='e2e_*.ops')], 'assumptions': [
         'theorems are about the L0 model Sd (two established endpoints + packet histories); the model is replayed line by line against two real established associations (TestVerifShutdown: real readLoop and real Shutdown call, write loop stepped explicitly, timers fired explicitly)',
         'which DATA chunks a write-loop pass sends (cwnd, rwnd, MTU bundling, burst budget, T3 / fast-retransmit / RACK marks, stream scheduler) is an input of the model, quantified over in the theorems and read off the emitted packets in the replay',
